@@ -118,3 +118,6 @@ OUTSIDE = ["more than 9 chromosomes (numeric vs lexical order is C20's law on th
            "input names inside the generated namespaces (SUPER_.., H_.., Scaffold_..): excluded by the statement",
            "'length' for unlocs and haplotigs is the length the code ranks by at naming time (Scaffold.length of the overlap result)"]
 TRUSTED = ["CrossHair/z3", "integer abstraction of the PretextView model", "Fragment.key_tuple stub", "loader cuts"]
+
+TECHNIQUE = ("symbolic execution of the real naming/ranking code (CrossHair + z3) with symbolic scaffold sizes: the solver decides every size order including ties")
+LEVEL_TEXT = ("All size orders (incl. ties) of up to 10 scaffolds are decided; names, holes, ranking by size, output order and the CSV are asserted.")
